@@ -21,6 +21,7 @@ from specs.gitmodel import emit, mutated, owned_term, name_of, br
 from specs.handlers import setup_common, havoc_local, wname, tagged
 from specs.intrinsics import implies, iff
 from bert_e import exceptions as X
+from bert_e.lib import git as GIT
 from bert_e.workflow.gitwaterflow import branches as B, integration as INT_
 import bert_e.workflow.gitwaterflow as GWF
 
@@ -42,8 +43,9 @@ def base_env():
     env.loop(CIB, 0, None)
     env.loop(GPL, 0, inv_no_match_so_far)
     env.loop(CIP, 0, None, types={'prs': 'seq[ChildPR]'})
-    env.loop(HDP, 0, None, havoc=[havoc_local], types={'changed': 'bool'})
-    env.loop(HDP, 1, None, types={'changed': 'bool'})
+    env.loop(HDP, 0, inv_cleanup_will_be_published, havoc=[havoc_local, havoc_pending], types={'changed': 'bool'},
+             top_level=True)
+    env.loop(HDP, 1, inv_cleanup_will_be_published, havoc=[havoc_pending], types={'changed': 'bool'}, top_level=True)
     from bert_e.lib import template_loader
     env.fn_models[B.render] = lambda I, tpl, **kw: SStr(I.fresh_term('rendered:' + tpl, smt.STR, False))
 
@@ -62,6 +64,9 @@ def base_env():
                    smt.Not(smt.App('local.exists@%d' % I.ghost['lv'], [nm], smt.BOOL)), 'create')
             tagged(I, 'C19', 'only w/<version>/<source> branches are created', 'site',
                    smt.StrPrefixOf(smt.StrC('w/'), nm), 'create')
+        if ev[0] in ('decline', 'delete_local') and 'pending' in I.ghost:
+            # summary ghost: something was declined / deleted locally and still has to be published
+            I.ghost['pending'] = True
         if ev[0] == 'create_pr':
             chk = I.ghost.get('create_pr_check')
             if chk is not None:
@@ -194,6 +199,25 @@ def hdp_setup(I, args):
                        deletion_scope(I2, I2.get_attr(pr, 'src_branch')))
     I.ghost['deletion_scope'] = deletion_scope
     I.ghost['decline_scope'] = decline_scope
+    I.ghost['pending'] = False
+
+
+def havoc_pending(I, fr):
+    I.ghost['pending'] = SBool(I.fresh_term('pending@loop', smt.BOOL, False))
+
+
+def inv_cleanup_will_be_published(G, changed=None):
+    # whatever was declined or deleted locally so far is remembered for the final pruning push
+    return changed is None or not G.pending or bool(changed)
+
+
+def ens_hdp_cleanup_published(job, out, G):
+    # declining the parent removes its integration branches ON THE REMOTE: any decline / local deletion is
+    # followed by the pruning push and reported as PullRequestDeclined (a failing push or an unrecognised
+    # name aborts the job)
+    return ((not G.pending)
+            or (out.raised(X.PullRequestDeclined) and any(e == ('push_all', True) for e in G.trace))
+            or (not out.returned and not out.raised(X.PullRequestDeclined) and not out.raised(X.NothingToDo)))
 
 
 def ens_hdp(job, out, G):
@@ -241,7 +265,8 @@ def contracts(env):
                    ensures=[('parent_is_the_first_number_of_the_description', ens_hpp)],
                    covers=['raise:AttributeError', 'return'])
     hdp = Contract(HDP, args=a, setup=hdp_setup,
-                   ensures=[('only_documented_outcomes', ens_hdp)],
+                   ensures=[('only_documented_outcomes', ens_hdp),
+                            ('declines_and_deletions_are_published_by_a_pruning_push', ens_hdp_cleanup_published)],
                    covers=['raise:PullRequestDeclined', 'raise:NothingToDo'])
     env.add_class('ChildDesc', fields={'description': 'str', 'id': 'int'})
     env.fn_models[GWF.handle_pull_request] = hp_model
@@ -253,6 +278,21 @@ def contracts(env):
 
 def extra(rep, tier, seed, budget):
     """fact: the first number of the rendered integration pull request description is the parent id"""
+    from bounded import integrate as _integ
+    _integ.system_histories(rep, tier, seed, ['C19_one_to_one'])
+    # handle_merge_queues: "merging it removes them" needs each merged pull request to be closed with its own
+    # cascade copy (close_queued_pull_request finalizes the cascade it receives): C19 obligation carried by the
+    # C02 contract of the handler
+    from pyvc import cli
+    from specs import c02
+    env2 = c02.base_env()
+    env2.prop = 'C19'
+    lock = cli.load_lock().get('C19', {})
+    for c in c02.contracts(env2):
+        if c.label.endswith(':handle_merge_queues'):
+            c.label = c.label + ' [C19 one cascade copy per merged pull request]'
+            cli.handle_function(rep, c02, env2, c, budget, lock)
+    rep.trusted.extend(env2.trusted)
     from types import SimpleNamespace
     from pyvc.cli import write_replay
     from bert_e.lib.template_loader import render
@@ -275,6 +315,11 @@ def extra(rep, tier, seed, budget):
         rep.violations.append({'key': k, 'what': k, 'replay': path, 'input': bad, 'noinput': False})
     rep.facts.append({'fact': 'description template renders the parent id as its first number', 'cases': cases,
                       'failed': bad})
+
+
+def replay_file(data):
+    from bounded import integrate as _integ
+    return _integ.replay(data)
 
 
 META = {
